@@ -38,7 +38,7 @@ func ruleC01(c *Ctx, r *Report) {
 	sort.Strings(zn)
 	r.Analysed["zone_functions"] = zn
 
-	c01Dispatch(c, r, p, []string{"query", "filter", "update", "updates", "q", "u", "documents", "pipeline"}, "C01-R1")
+	c01Dispatch(c, r, p, []string{"query", "filter", "update", "updates", "deletes", "q", "u", "documents", "pipeline"}, "C01-R1")
 	c01Sinks(c, r, p)
 	c01Loops(c, r, p)
 	tablePolicyRule(c, r, "C01-R4")
@@ -149,50 +149,102 @@ func c01Dispatch(c *Ctx, r *Report, p *Prov, zoneKeys []string, rule string) {
 		// no gate at all: every line is walked - more redaction, fine
 		r.Trivial(rule, p.Root.Name()+":line-gate", c.Pos(p.Root.Pos()), "no disjunctive line gate dominates the dispatch (all lines are walked)")
 	}
-	// zone keys inside the command walker
-	sets := map[string]*ssa.Call{}
+	// zone keys inside the command walker, per JSON form the grammar allows
+	type zoneSet struct {
+		call *ssa.Call
+		form string // doc | array | ?
+	}
+	sets := map[string][]zoneSet{}
 	allInstrs(cmdFn, func(i ssa.Instruction) {
 		if call, ok := i.(*ssa.Call); ok && calleeKey(&call.Call) == omMethod("Set") && call.Call.Args[0] == ssa.Value(cmdFn.Params[0]) {
 			if k, ok := constString(call.Call.Args[1]); ok {
-				sets[k] = call
+				form := "?"
+				for _, a := range p.atomsAt(call.Block()) {
+					if a.Kind == "typeis" && a.Pol {
+						if kk, ok := getKeyOfValue(a.X); ok && kk == k {
+							switch {
+							case isOrderedMapPtr(a.Type):
+								form = "doc"
+							case isAnySlice(a.Type):
+								form = "array"
+							}
+						}
+					}
+				}
+				sets[k] = append(sets[k], zoneSet{call, form})
 			}
 		}
 	})
 	loops := p.walkerLoops(cmdFn)
 	for _, k := range zoneKeys {
-		call := sets[k]
-		construct := fmt.Sprintf("%s:zone(%s)", cmdFn.Name(), k)
-		if call == nil {
-			r.Bad(rule, construct, c.Pos(cmdFn.Pos()), "zone key "+k+" is not rewritten by the command walker: its literals are emitted unredacted")
-			continue
+		forms := zoneForms[k]
+		if len(forms) == 0 {
+			forms = []string{"any"}
 		}
-		// value = walker(Get(cmd,k)) or fresh slice filled from Get(cmd,k)
-		v := peel(call.Call.Args[2])
-		srcOK := false
-		if wc, ok := v.(*ssa.Call); ok && c.staticPkgCallee(&wc.Call) != nil && len(wc.Call.Args) > 0 {
-			for _, a := range wc.Call.Args {
-				if kk, ok := getKeyOfValue(a); ok && kk == k {
-					srcOK = true
+		for _, form := range forms {
+			construct := fmt.Sprintf("%s:zone(%s)", cmdFn.Name(), k)
+			if form != "any" && len(zoneForms[k]) > 1 {
+				construct = fmt.Sprintf("%s:zone(%s:%s)", cmdFn.Name(), k, form)
+			}
+			var call *ssa.Call
+			for _, zs := range sets[k] {
+				if form == "any" || zs.form == form {
+					call = zs.call
 				}
 			}
-		}
-		for _, ic := range loops {
-			if ic.Out == v {
-				if kk, ok := getKeyOfValue(ic.Loop.Coll); ok && kk == k {
-					srcOK = true
+			if call == nil {
+				what := "zone key " + k
+				if form != "any" {
+					what += " in its " + form + " form"
+				}
+				r.Bad(rule, construct, c.Pos(cmdFn.Pos()), what+" is not rewritten by the command walker: its literals are emitted unredacted")
+				continue
+			}
+			// value = walker(Get(cmd,k)) or fresh slice filled from Get(cmd,k)
+			v := peel(call.Call.Args[2])
+			srcOK := false
+			if wc, ok := v.(*ssa.Call); ok && c.staticPkgCallee(&wc.Call) != nil && len(wc.Call.Args) > 0 {
+				for _, a := range wc.Call.Args {
+					if kk, ok := getKeyOfValue(a); ok && kk == k {
+						srcOK = true
+					}
 				}
 			}
-		}
-		var bad []string
-		for _, a := range p.atomsAt(call.Block()) {
-			if !allowedDispatchAtoms[a.Kind] {
-				bad = append(bad, a.String())
+			for _, ic := range loops {
+				if ic.Out == v {
+					if kk, ok := getKeyOfValue(ic.Loop.Coll); ok && kk == k {
+						srcOK = true
+					}
+				}
 			}
+			var bad []string
+			for _, a := range p.atomsAt(call.Block()) {
+				if !allowedDispatchAtoms[a.Kind] {
+					bad = append(bad, a.String())
+				}
+			}
+			r.Check(srcOK && len(bad) == 0, rule, construct, c.InstrPos(call),
+				"cmd["+k+"] ("+form+") is replaced by the walker's result for cmd["+k+"], under lookup/type guards only",
+				fmt.Sprintf("zone key %s: sourceIsSameKey=%v extraConditions=%v", k, srcOK, bad))
 		}
-		r.Check(srcOK && len(bad) == 0, rule, construct, c.InstrPos(call),
-			"cmd["+k+"] is replaced by the walker's result for cmd["+k+"], under lookup/type guards only",
-			fmt.Sprintf("zone key %s: sourceIsSameKey=%v extraConditions=%v", k, srcOK, bad))
 	}
+}
+
+// zoneForms: the JSON forms in which each zone key occurs in the MongoDB command
+// grammar (written from the property statement - query predicate, update
+// specification incl. pipeline-style updates, delete specification, inserted
+// documents, aggregation pipeline - and the server's command reference).
+var zoneForms = map[string][]string{
+	"query":     {"doc"},
+	"filter":    {"doc"},
+	"q":         {"doc"},
+	"update":    {"doc", "array"}, // findAndModify: update document or aggregation pipeline
+	"u":         {"doc", "array"}, // update statement: modifier document or pipeline
+	"updates":   {"array"},
+	"deletes":   {"array"},
+	"documents": {"array"},
+	"pipeline":  {"array"},
+	"sort":      {"doc"},
 }
 
 func keysOf(m map[string]bool) []string {
